@@ -14,12 +14,16 @@ SPEC = {
     ("C01", "C01_single_content_length"), ("C01", "C01_single_content_length_read"),
     ("C01", "C01_judge_bridge_partial"), ("C01", "C01_judge_bridge_request"), ("C01", "C01_judge_bridge_response"),
     ("C01", "C01_judge_relay"), ("C01", "C01_legacy_refuted")]),
- "C07": (["C07", "C07_bridge"], [
+ "C07": (["C07", "C07_bridge", "C07_bridge_tcp"], [
+    ("C07_bridge_tcp", "C07_judge_bridge_tcp_msg"), ("C07_bridge_tcp", "C07_judge_bridge_tcp_step"),
     ("C07", "C07_stamp"), ("C07", "C07_stamp_params"), ("C07", "C07_kv_set_char"), ("C07", "C07_pipeline"),
     ("C07", "C07_wiring"), ("C07", "C07_wiring_legacy"), ("C07", "C07_wired_reachable"),
     ("C07", "C07_step_udp"), ("C07", "C07_step_tcp"),
     ("C07_bridge", "C07_judge_bridge_udp"), ("C07_bridge", "C07_judge_bridge_step")]),
- "C02": (["C06", "C13_bridge", "C07_bridge", "C07", "C02", "C02_bridge"], [
+ "C02": (["C06", "C13_bridge", "C07_bridge", "C07", "C02", "C02_bridge", "C02_bridge_tcp"], [
+    ("C02_bridge_tcp", "C02_judge_bridge_tcp_core_msg"), ("C02_bridge_tcp", "C02_judge_bridge_tcp_core_step"),
+    ("C02_bridge_tcp", "C02_judge_bridge_tcp_step_udp"), ("C02_bridge_tcp", "C02_judge_bridge_tcp_step_drop"),
+    ("C02_bridge_tcp", "C02_judge_bridge_tcp_step_tcp_sent"), ("C02_bridge_tcp", "C02_judge_bridge_tcp_step_tcp_fresh"),
     ("C02_bridge", "C02_judge_bridge_core"), ("C02_bridge", "C02_judge_bridge_step_udp"), ("C02_bridge", "C02_judge_bridge_step_drop"),
     ("C02_bridge", "C02_judge_bridge_step_unsupported"), ("C02_bridge", "C02_judge_bridge_step_unresolved"),
     ("C02_bridge", "C02_judge_bridge_step_tcp_partial"), ("C02_bridge", "C02_judge_bridge_step_tcp_sent"),
@@ -28,7 +32,9 @@ SPEC = {
     ("C02", "C02_undecodable_dropped"), ("C02", "C02_dest_unsupported"), ("C02", "C02_dest_udp"), ("C02", "C02_dest_tcp"),
     ("C02", "C02_tcp_slot_reachable"), ("C02", "C02_independent_of_pins"), ("C02", "C02_roundtrip_return"),
     ("C02", "C02_roundtrip"), ("C02", "C02_process_response")]),
- "C06": (["C07_bridge", "C13_bridge", "C06", "C13", "C03", "C06_bridge"], [
+ "C06": (["C07_bridge", "C13_bridge", "C06", "C13", "C03", "C06_bridge", "C06_bridge_tcp"], [
+    ("C06_bridge_tcp", "C06_judge_bridge_tcp_msg"), ("C06_bridge_tcp", "C06_judge_bridge_tcp_step"),
+    ("C06_bridge_tcp", "C06_agree_tcp_step"), ("C06_bridge_tcp", "C06_lrn_ok_tcp_step"),
     ("C06_bridge", "C06_judge_bridge_step"), ("C06_bridge", "C06_judge_bridge_udp"), ("C06_bridge", "C06_agree_step"),
     ("C06_bridge", "C06_lrn_ok_step"),
     ("C06", "C06_via_pushed"), ("C06", "C06_via_position"), ("C06", "C06_branch"), ("C06", "C06_rr_policy"),
@@ -37,14 +43,17 @@ SPEC = {
     ("C06", "branch_of_inj", "C06_branch_of_inj"), ("C06", "branch_of_cookie", "C06_branch_of_cookie"),
     ("C06", "C06_branches_distinct"), ("C06", "learn_lookup", "C06_learn_lookup"), ("C06", "C06_learning"),
     ("C06", "C06_learning_response"), ("C03", "C06_relayed_request")]),
- "C13": (["C06", "C13", "C13_bridge"], [
+ "C13": (["C06", "C13", "C13_bridge", "C13_bridge_tcp"], [
+    ("C13_bridge_tcp", "C13_judge_bridge_tcp_msg"), ("C13_bridge_tcp", "C13_judge_bridge_tcp_step"),
     ("C13_bridge", "C13_route_headers"), ("C13_bridge", "C13_judge_bridge_udp"), ("C13_bridge", "C13_judge_bridge_step"),
     ("C13", "try_remove_top_route_pops_iff_own", "C13_own_popped_iff"),
     ("C13", "next_hop_by_route_pops_iff_not_keep", "C13_next_hop_popped_iff_not_keep"),
     ("C13", "C13_route"), ("C13", "C13_route_decoded"), ("C13", "route_view_grammar", "C13_route_view_grammar"),
     ("C13", "route_header_text", "C13_route_header_text"),
     ("C13", "C13_keep_setting_decides"), ("C13", "C13_keep_env_default")]),
- "C03": (["C02", "C13_bridge", "C06", "C13", "C03", "C03_bridge"], [
+ "C03": (["C02", "C13_bridge", "C06", "C13", "C03", "C03_bridge", "C03_bridge_tcp"], [
+    ("C03_bridge_tcp", "choose_agree_gen", "C03_choose_agree_gen"), ("C03_bridge_tcp", "C03_judge_bridge_tcp_msg"),
+    ("C03_bridge_tcp", "C03_judge_bridge_tcp_step"), ("C03_bridge_tcp", "C03_judge_bridge_tcp_step_no_tcp"),
     ("C03_bridge", "choose_agree", "C03_choose_agree"), ("C03_bridge", "C03_judge_bridge_udp"), ("C03_bridge", "C03_judge_bridge_step"),
     ("C03_bridge", "C03_judge_bridge_step_no_tcp"), ("C03_bridge", "agree_step_udp", "C03_agree_step_udp"),
     ("C03", "C03_at_most_one"), ("C03", "C03_at_most_one_udp"), ("C03", "C03_at_most_one_tcp"), ("C03", "C03_choice"),
